@@ -54,7 +54,12 @@ class Check:
         return cond
 
     def floor(self, rule, what, n, floor):
-        return self.ob(rule, "-", "floor:" + what, n >= floor, "%d sites matched, floor %d" % (n, floor), "", nontrivial=False)
+        """Vacuity guard: the rule must still find (about) as many instances as were confirmed by hand. Floors of 10 and more
+        carry a slack of one tenth: they exist to notice a rule that stopped recognising its idiom or lost its anchor, not to
+        forbid a refactoring that turns a few sites into a form that needs no obligation (a removed *check* is the business
+        of the rule itself, which then finds an unguarded site)."""
+        need = floor - (floor // 10 if floor >= 10 else 0)
+        return self.ob(rule, "-", "floor:" + what, n >= need, "%d sites matched, floor %d (minimum %d)" % (n, floor, need), "", nontrivial=False)
 
     def note(self, s):
         self.notes.append(s)
